@@ -32,7 +32,7 @@ RULE = (
 STATE_MEASURE = "(record kind, field-shape classes: sign/zero of drag terms, exponent, designator presence, digits of element / revolution numbers, catalogue fault kind)"
 PROBES = [
     "grid_entry_bytes_equal", "free_entry_parsed_back", "digit_flips_rejected", "truncations_rejected", "line_number_subs_rejected", "catalogue_fault_checked",
-    "catalogue_warn_logged", "orbit_called_twice_with_mutation", "small_adjustment_written_back", "failed_frame_change_before_writing_back", "epoch_last_ms_before_midnight", "four_digit_element_number", "five_digit_revolutions",
+    "catalogue_warn_logged", "orbit_called_twice_with_mutation", "small_adjustment_written_back", "catalogue_layout_crlf", "catalogue_layout_blank", "catalogue_layout_noeol", "failed_frame_change_before_writing_back", "epoch_last_ms_before_midnight", "four_digit_element_number", "five_digit_revolutions",
     "negative_ndot", "negative_bstar", "zero_drag_terms", "empty_designator", "three_line_form", "damaged_entry_followed_by_valid",
 ]
 REAL_VS_STUB = "real: beyond.io.tle (Tle, from_orbit, from_string, orbit), Orbit/forms/Date; stub: none (the stored text is held by the simulated disk and corrupted there); model: independent fixed-column formatter / checksum / field reader"
@@ -348,7 +348,22 @@ def run_plan(plan, ctx):
         if kn.get("comments") and k % 2 == 0:
             cat_lines.append(f"# entry {k}")
         cat_lines.extend(e["lines"])
-    W.disk.write("/cat/catalog.tle", "\n".join(cat_lines) + "\n")
+    import random as _random
+
+    lay = _random.Random("c12-layout:" + repr([r_["norad"] for r_ in kn["records"]])).choice(["lf", "lf", "crlf", "blank", "noeol", "crlf_blank"])
+    eol = "\r\n" if lay.startswith("crlf") else "\n"
+    if "blank" in lay:
+        # blank lines between entries (and a last line of blanks)
+        spaced = []
+        for ln in cat_lines:
+            if ln.startswith("1 ") and spaced and not spaced[-1].startswith(("0 ", "#")) and spaced[-1].startswith("2 "):
+                spaced.append("")
+            spaced.append(ln)
+        cat_lines_w = spaced + ["   "]
+    else:
+        cat_lines_w = cat_lines
+    W.disk.write("/cat/catalog.tle", eol.join(cat_lines_w) + ("" if lay == "noeol" else eol))
+    ctx.probe("catalogue_layout_" + lay)
     if kn.get("three_line"):
         ctx.probe("three_line_form")
     # ------------------------------------------------------------ reader (fresh process)
@@ -461,6 +476,15 @@ def check_entry(ctx, R, TleR, e, t, k):
             dict(fp, kind="rewritten_text_differs", line=which if len(txt) == len(want_lines) else "count"),
             f"entry {k}: Tle.from_orbit(tle.orbit()) gives\n   " + "\n   ".join(txt) + "\nstored\n   " + "\n   ".join(want_lines),
         )
+    else:
+        # what was written can be read and written again: a second cycle gives the same lines
+        try:
+            again = str(TleR.from_orbit(TleR("\n".join(txt)).orbit())).splitlines()
+        except Exception as ex:  # noqa
+            again = [f"{type(ex).__name__}: {ex}"]
+        ctx.checks += 1
+        if again != txt:
+            ctx.violate("round-trip", dict(fp, kind="second_cycle_differs"), f"entry {k}: the lines written from the parsed orbit, parsed and written once more, give\n   " + "\n   ".join(again) + "\nfirst cycle\n   " + "\n   ".join(txt))
     small_adjustment(ctx, TleR, e, t, k)
 
 
